@@ -125,6 +125,36 @@ def v2(ctx):
         v = ctx.P.try_fold(ci.module, ci.attrs["content_type"]) if "content_type" in ci.attrs else None
         obs.append(ctx.ob(v == ct, cq, "%s:%d" % (ci.module.rel, ci.node.lineno), "content_type == %s" % ct,
                           "handler key is %r" % v, "%s.content_type is %r; uploads of %s are handled by the no-op File class" % (ci.name, v, ct)))
+    # the handler is looked up by the bare media type: parameters (charset=...) are stripped
+    ob = ctx.func("xandikos.store.open_by_content_type")
+    gets = [n for n in walk_local(ob.node) if isinstance(n, ast.Call) and isinstance(n.func, ast.Attribute) and n.func.attr == "get"
+            and "extra_file_handlers" in (dotted(n.func.value) or "")]
+    subs = [n for n in walk_local(ob.node) if isinstance(n, ast.Subscript) and (dotted(n.value) or "").endswith("extra_file_handlers")]
+    if not gets and not subs:
+        raise AnalysisError("open_by_content_type: handler lookup not found")
+    from ..dataflow import DefUse as _DU
+    cfgo = ctx.cfg(ob)
+    duo = _DU(cfgo)
+
+    def strips_params(e, node, depth=0):
+        for x in ast.walk(e):
+            if isinstance(x, ast.Subscript) and isinstance(x.value, ast.Call) and isinstance(x.value.func, ast.Attribute) and x.value.func.attr in ("split", "partition") \
+                    and x.value.args and ctx.P.try_fold(ob.module, x.value.args[0]) == ";" and ctx.P.try_fold(ob.module, x.slice) == 0:
+                return True
+            if isinstance(x, ast.Call) and (dotted(x.func) or "").split(".")[-1] in ("parse_type", "parse_header", "parse_options_header"):
+                return True
+            if isinstance(x, ast.Name) and depth < 3:
+                for d in duo.reaching(node, x.id):
+                    if d.value is not None and d.kind == "assign" and strips_params(d.value, d.node, depth + 1):
+                        return True
+        return False
+    for g in gets + subs:
+        node = [n for n in cfgo.stmt_nodes() if any(g is x for e in n.exprs() for x in ast.walk(e))]
+        key = g.args[0] if isinstance(g, ast.Call) else g.slice
+        ok = bool(node) and strips_params(key, node[0])
+        obs.append(ctx.ob(ok, ob.qualname, ob.where, "handler looked up by the bare media type", "key is content_type.split(';')[0]",
+                          "open_by_content_type looks the handler up with `%s`, parameters included: an upload with 'text/calendar; charset=utf-8' gets the generic "
+                          "File class, which neither validates nor normalises" % src(key)))
     # ICalendarFile.validate
     f = ctx.own_method("xandikos.icalendar.ICalendarFile", "validate")
     cfg = ctx.cfg(f)
